@@ -13,7 +13,7 @@ import re
 
 from checks import classcommon as cc
 from sim import classmodel as cm
-from sim import loader, recipes, sched, simid
+from sim import loader, recipes, sched, simid, simset
 from sim.kernel import EventLog, HarnessError, Violation, digest_of, stream
 
 PROPERTY = "C20"
@@ -249,7 +249,22 @@ def generate(run_seed, tier):
     total = sum(len(t) for t in tasks)
     # builds must stay in id order for refs to resolve: schedule interleaves tasks, unresolved refs are no-ops
     schedule = [sc.randrange(ntasks) for _ in range(total)] if sc.random() < 0.7 else []
-    return {"property": PROPERTY, "config": {}, "world": {"texts": texts}, "tasks": tasks, "schedule": schedule}
+    cf = stream(run_seed, "order")
+    keys = cc.order_keys(cf, 2 if tier == "quick" else 4) if any(
+        op["op"] == "build" and _touches_classes(op["recipe"]) for ops in tasks for op in ops) else []
+    return {"property": PROPERTY, "config": {"order_keys": keys}, "world": {"texts": texts}, "tasks": tasks, "schedule": schedule}
+
+
+def _touches_classes(r):
+    if isinstance(r, list):
+        if r and r[0] in ("AnyFrom", "AnyButFrom", "AnyBetween", "AnyButBetween", "named", "Any"):
+            return True
+        if r and r[0] == "op" and r[1] in ("|", "-", "~"):
+            return True
+        return any(_touches_classes(x) for x in r)
+    if isinstance(r, dict):
+        return any(_touches_classes(v) for v in r.values())
+    return False
 
 
 # ---------------------------------------------------------------------------------------
@@ -297,8 +312,37 @@ def outcome_of_build(fn):
 
 
 def execute(plan, inst, keep_log=False):
+    """The history under the interpreter's real hash order, then again - in further fresh module instances - under
+    each order key of the set seam; per-object outcomes must agree (oracle 3 inside one process)."""
     log = EventLog(keep_log)
+    base = _run(plan, inst, log, "real")
+    for key in plan.get("config", {}).get("order_keys", []):
+        inst2 = loader.fresh_instance()
+        simset.configure(key)
+        simset.install(inst2.classes)
+        try:
+            other = _run(plan, inst2, log, "set-order key %r" % (key,))
+        finally:
+            simset.uninstall(inst2.classes)
+            base["stats"]["shim_noncanonical"] = base["stats"].get("shim_noncanonical", 0) + simset.counters()["noncanonical"]
+        base["stats"]["shim_configs"] = base["stats"].get("shim_configs", 0) + 1
+        for k in ("class_sets_compared", "rebuilt_spelling_differs"):
+            base["stats"][k] += other["stats"][k]
+        if other["outcome"] != base["outcome"]:
+            for x, y in zip(base["outcome"], other["outcome"]):
+                if x != y:
+                    raise Violation("C20.set_order_dependent",
+                                    "#%d = %s: %s under the real hash order but %s under set-order key %r"
+                                    % (x[0], show(other["recs"][x[0]]), x[1:], y[1:], key))
+    base["digest"] = log.digest()
+    base["log"] = log.lines
+    base.pop("recs", None)
+    return base
+
+
+def _run(plan, inst, log, label):
     texts = plan["world"]["texts"]
+    log.add("config", label)
     ids = simid.install(inst)
     pool, recs, snaps, outcomes = {}, {}, {}, {}
     handles = {}
@@ -458,7 +502,7 @@ def execute(plan, inst, keep_log=False):
                 raise Violation("C20.history_dependent_value",
                                 "#%d = %s: pattern %r in this history, %r when rebuilt from fresh sub-objects; they match differently"
                                 % (pid, show(recs[pid]), str(pool[pid]), str(o2)))
-            if is_class_obj(pool[pid]) and is_class_obj(o2) and str(o2) != str(pool[pid]):
+            if is_class_obj(pool[pid]) and is_class_obj(o2) and str(o2) != str(pool[pid]) and stats["class_sets_compared"] < 6:
                 stats["class_sets_compared"] += 1
                 s1, _ = cm.matched_set(str(pool[pid]))
                 s2, _ = cm.matched_set(str(o2))
@@ -470,8 +514,8 @@ def execute(plan, inst, keep_log=False):
     stats["steps"], stats["switches"] = s["steps"], s["switches"]
     stats["simid_calls"], stats["simid_recycled"] = ids.calls, ids.recycled
     nontrivial = (stats["same_object_twice"] + stats["aliases"] + stats["operand_compiled"] + stats["operand_iterated"]) > 0
-    return {"digest": log.digest(), "stats": stats, "faults_fired": {}, "cover": sorted(cover), "outcome": outcome,
-            "nontrivial": nontrivial, "log": log.lines}
+    return {"digest": None, "stats": stats, "faults_fired": {}, "cover": sorted(cover), "outcome": outcome,
+            "nontrivial": nontrivial, "log": None, "recs": recs}
 
 
 def _count_refs(r):
@@ -509,6 +553,16 @@ def show(r):
 
 def shrink_candidates(plan):
     import copy
+    keys = plan.get("config", {}).get("order_keys", [])
+    if keys:
+        q = copy.deepcopy(plan)
+        q["config"]["order_keys"] = []
+        yield q
+        for k in keys:
+            if len(keys) > 1:
+                q = copy.deepcopy(plan)
+                q["config"]["order_keys"] = [k]
+                yield q
     texts = plan["world"]["texts"]
     used = {op.get("t") for ops in plan["tasks"] for op in ops if "t" in op}
     for tid in sorted(texts):
@@ -569,11 +623,11 @@ EVIDENCE = {
     "measure": "(builder, spelling, sharing pattern {fresh, reused, same-object-twice}, operand compiled?, operand iterated?, "
                "outcome class) plus (use op, compiled?, iterated?)",
     "probes": ["drops", "aliases", "shortcut_self", "same_object_twice", "operand_compiled", "operand_iterated", "rebuilt",
-               "build_exceptions", "snapshots_checked", "simid_recycled"],
+               "build_exceptions", "snapshots_checked", "shim_configs", "class_sets_compared"],
     "fault_kinds": [],
     "components": {
         "real": ["all of pregex", "re", "fresh module instances (every pregex module re-executed) for the rebuild oracle"],
-        "stub": ["the builtin id() as seen from pregex modules (SimId: deterministic numbers, the number of a dead object is "
+        "stub": ["set iteration order in the additional shim configurations of each run", "the builtin id() as seen from pregex modules (SimId: deterministic numbers, the number of a dead object is "
                  "recycled for the next new one)"],
     },
     "assumptions": [
@@ -581,6 +635,6 @@ EVIDENCE = {
         "sampling evidence of agreement); classes whose spelling differs are compared over all code points",
         "ops that raise simply add nothing; C20 does not judge exception types, only that the same recipe raises the same type "
         "in every history, module instance and hash seed",
-        "set-order shim configurations are not used here (C07 covers shared class operands under the shim); hash seeds are real",
+        "besides >= 2 real hash seeds per run index, histories that touch classes are repeated under 2 (quick) / 4 (thorough) set-order keys",
     ],
 }
